@@ -81,7 +81,7 @@ var trSpecs = []trSpec{
 			"github.com/practable/relay/internal/access/restapi/operations.ListAllowedParams": "Go.NoParams",
 			"github.com/go-openapi/runtime/middleware.Responder":                              "Go.Resp"},
 		optionPtr:  map[string]string{"github.com/golang-jwt/jwt/v4.NumericDate": "Go.NumericDate"},
-		externMeth: map[string]string{"github.com/golang-jwt/jwt/v4.NumericDate.IsZero": "Go.NumericDate.IsZero"},
+		externMeth: map[string]string{"github.com/golang-jwt/jwt/v4.NumericDate.IsZero": "Go.NumericDate.IsZero", "github.com/golang-jwt/jwt/v4.NumericDate.Unix": "Go.NumericDate.unix"},
 		assertions: map[string][2]string{"*jwt.Token": {"%s.token", "%s.isJwt"}, "*permission.Token": {"%s.asToken", "%s.isToken"}}},
 }
 
@@ -616,6 +616,13 @@ func (t *tr) call(x *ast.CallExpr, want int) (string, bool) {
 				}
 				if n, ok := rt.(*types.Named); ok && n.Obj().Pkg() != nil {
 					if l, ok := t.spec.externMeth[n.Obj().Pkg().Path()+"."+n.Obj().Name()+"."+fn.Name()]; ok && len(x.Args) == 0 {
+						if t.isOptionPtr(t.typeOf(f.X)) {
+							// method called directly on a nil-able pointer (`p.Unix()`): an implicit dereference
+							if t.nonNil[srcString(f.X)] == 0 {
+								unsup("possible nil dereference of %s (no dominating nil test)", srcString(f.X))
+							}
+							return "(" + l + " (Go.deref " + t.expr(f.X) + "))", false
+						}
 						return "(" + l + " " + t.expr(f.X) + ")", false
 					}
 				}
@@ -748,6 +755,34 @@ func (t *tr) isLoggingCall(c *ast.CallExpr) bool {
 		return strings.HasPrefix(obj.Name(), "Print") || strings.HasPrefix(obj.Name(), "Fprint")
 	}
 	return false
+}
+
+// scanDerefs: every dereference of a nil-able pointer inside n (explicit `*p`, field or method through `p`) must be dominated
+// by a nil test on the current path; index expressions and type assertions without comma-ok can panic too
+func (t *tr) scanDerefs(n ast.Node) {
+	ast.Inspect(n, func(m ast.Node) bool {
+		switch x := m.(type) {
+		case *ast.StarExpr:
+			if tv, ok := t.info.Types[x.X]; ok && t.isOptionPtr(tv.Type) && t.nonNil[srcString(x.X)] == 0 {
+				unsup("possible nil dereference of %s in an argument that is evaluated for logging", srcString(x.X))
+			}
+		case *ast.SelectorExpr:
+			if tv, ok := t.info.Types[x.X]; ok && t.isOptionPtr(tv.Type) && t.nonNil[srcString(x.X)] == 0 {
+				unsup("possible nil dereference of %s in an argument that is evaluated for logging", srcString(x.X))
+			}
+		case *ast.IndexExpr:
+			if tv, ok := t.info.Types[x.X]; ok {
+				if _, isMap := tv.Type.Underlying().(*types.Map); !isMap {
+					unsup("index expression %s in an argument that is evaluated for logging (may be out of range)", srcString(x))
+				}
+			}
+		case *ast.SliceExpr:
+			unsup("slice expression %s in an argument that is evaluated for logging (may be out of range)", srcString(x))
+		case *ast.TypeAssertExpr:
+			unsup("type assertion %s in an argument that is evaluated for logging (may panic)", srcString(x))
+		}
+		return true
+	})
 }
 
 func (t *tr) isMutexCall(c *ast.CallExpr) bool {
@@ -897,6 +932,7 @@ func (t *tr) stmts(list []ast.Stmt, k cont, ind string, inLoop bool) string {
 			unsup("expression statement")
 		}
 		if t.isLoggingCall(c) {
+			t.scanDerefs(c) // the arguments of a log call are still evaluated: they must not be able to panic
 			return ind + "-- (logging)\n" + rest()
 		}
 		if t.isMutexCall(c) {
